@@ -418,3 +418,76 @@ Example C01_stream_roundtrip_main_path_meta_example : forall dict_word transform
   /\ (exists s', g_run_calls call k_op k_in k_cap s0 (exm_script call Build_call) [] = Done (true, s', exm_emitted) /\ is_finished s' = true)
   /\ exists info, decode dict_word transform_tbl true [] exm_emitted = Ok ([], info).
 Proof. exact (fun d t => roundtrip_main_path_meta_example d t call k_op k_in k_cap Build_call (fun _ _ _ => eq_refl) (fun _ _ _ => eq_refl) (fun _ _ _ => eq_refl)). Qed.
+
+(* ---------------------------------------------------------------- (e'') the one-pass/two-pass path (quality 0/1) *)
+(* THE COMPOSITION on the path of compress_stream_fast (fastcond = true: quality 0/1, not catable, no magic),
+   PROCESS / FLUSH / FINISH / EMIT_METADATA calls, any chunking, any output capacities (in-place and staged
+   output).  The encoder's position counters stay 0 on this path and the recorded a_lfp is 0; the slice an
+   invocation compressed is determined by a_block (the glue checks a_block = min(2^lgwin, bytes offered) and
+   consumes exactly that much), so the semantic premise is stated for the REPOSITIONED answers: `repos 0 l` gives
+   each answer the flush position that is the running sum of a_block (g_answer_bits ignores a_lfp).
+   Boolean premises: answer_ok3s and kept_ann exactly as on the main path - nothing new (fast_answer_ok3). *)
+From V Require Import proofs.Roundtrip_fastrun.
+Theorem C01_stream_roundtrip_fast_path : forall dict_word transform_tbl (params : list (N * N)) (cs : list call)
+    (answers : list answer) s' emitted B,
+  let s0 := upd_misc (fold_left (fun s kv => snd (set_parameter s (fst kv) (snd kv))) params init_st) false answers in
+  let s1 := ensure_initialized s0 in
+  let input := concat (map k_in (filter (fun c => negb (opk_eqb (k_op c) OpMeta)) cs)) in
+  forallb answer_ok3s answers = true ->
+  meta_bytes_ok call k_op k_in cs = true -> fastcond s1 = true ->
+  kept_ann (g_ann call k_op k_in k_cap s0 cs) = true ->
+  faithful_ann dict_word transform_tbl B (large_window s1) (stream_wbits s1) input 0 (repos 0 (g_ann call k_op k_in k_cap s0 cs)) ->
+  run_calls s0 cs [] = Done (true, s', emitted) -> is_finished s' = true ->
+  8 * lenN emitted <= B ->
+  exists info, decode_bits dict_word transform_tbl true [] (flat_map (fun b => N_to_bits 8 b) emitted) B = Ok (input, info).
+Proof. exact (fun d t => roundtrip_fast_path d t call k_op k_in k_cap). Qed.
+Print Assumptions C01_stream_roundtrip_fast_path.
+
+Theorem C01_stream_roundtrip_fast_path_decode : forall dict_word transform_tbl (params : list (N * N)) (cs : list call)
+    (answers : list answer) s' emitted,
+  let s0 := upd_misc (fold_left (fun s kv => snd (set_parameter s (fst kv) (snd kv))) params init_st) false answers in
+  let s1 := ensure_initialized s0 in
+  let input := concat (map k_in (filter (fun c => negb (opk_eqb (k_op c) OpMeta)) cs)) in
+  forallb answer_ok3s answers = true ->
+  meta_bytes_ok call k_op k_in cs = true -> fastcond s1 = true ->
+  kept_ann (g_ann call k_op k_in k_cap s0 cs) = true ->
+  faithful_ann dict_word transform_tbl (8 * lenN emitted + 8) (large_window s1) (stream_wbits s1) input 0 (repos 0 (g_ann call k_op k_in k_cap s0 cs)) ->
+  run_calls s0 cs [] = Done (true, s', emitted) -> is_finished s' = true ->
+  exists info, decode dict_word transform_tbl true [] emitted = Ok (input, info).
+Proof. exact (fun d t => roundtrip_fast_path_decode d t call k_op k_in k_cap). Qed.
+Print Assumptions C01_stream_roundtrip_fast_path_decode.
+
+(* BOTH PATHS under one statement: every parameter list, every script of PROCESS / FLUSH / FINISH / EMIT_METADATA
+   calls; the parameters decide (fastcond s1) whether the answers are taken at their recorded flush positions
+   (main path) or at the running sums of their blocks (one-pass/two-pass path). *)
+Theorem C01_stream_roundtrip : forall dict_word transform_tbl (params : list (N * N)) (cs : list call)
+    (answers : list answer) s' emitted B,
+  let s0 := upd_misc (fold_left (fun s kv => snd (set_parameter s (fst kv) (snd kv))) params init_st) false answers in
+  let s1 := ensure_initialized s0 in
+  let input := concat (map k_in (filter (fun c => negb (opk_eqb (k_op c) OpMeta)) cs)) in
+  forallb answer_ok3s answers = true ->
+  meta_bytes_ok call k_op k_in cs = true -> lenN input < 2 ^ 64 ->
+  kept_ann (g_ann call k_op k_in k_cap s0 cs) = true ->
+  faithful_ann dict_word transform_tbl B (large_window s1) (stream_wbits s1) input 0
+               (if fastcond s1 then repos 0 (g_ann call k_op k_in k_cap s0 cs) else g_ann call k_op k_in k_cap s0 cs) ->
+  run_calls s0 cs [] = Done (true, s', emitted) -> is_finished s' = true ->
+  8 * lenN emitted <= B ->
+  exists info, decode_bits dict_word transform_tbl true [] (flat_map (fun b => N_to_bits 8 b) emitted) B = Ok (input, info).
+Proof. exact (fun d t => roundtrip_all_paths d t call k_op k_in k_cap). Qed.
+Print Assumptions C01_stream_roundtrip.
+
+(* non-vacuity on the one-pass/two-pass path: quality 0, input "hi!", fx_script call Build_call =
+   [FLUSH [] cap 1; PROCESS [] cap 100; FLUSH [104;105] cap 100; FINISH [33] cap 1000]: a flush without input (padding
+   block, no answer), one staged answer, one in-place last answer; recorded a_lfp = 0 for both, as on real traces *)
+From V Require Import proofs.Roundtrip_examplef.
+Example C01_stream_roundtrip_fast_path_example : forall dict_word transform_tbl,
+  let s0 := fx_s0 in
+  let s1 := ensure_initialized s0 in
+  forallb answer_ok3s fx_answers = true /\ meta_bytes_ok call k_op k_in (fx_script call Build_call) = true /\ fastcond s1 = true
+  /\ kept_ann (g_ann call k_op k_in k_cap s0 (fx_script call Build_call)) = true
+  /\ large_window s1 = false /\ stream_wbits s1 = 22 /\ g_input call k_op k_in (fx_script call Build_call) = ex_input
+  /\ (forall B, faithful_ann dict_word transform_tbl B (large_window s1) (stream_wbits s1) ex_input 0
+                             (repos 0 (g_ann call k_op k_in k_cap s0 (fx_script call Build_call))))
+  /\ (exists s', g_run_calls call k_op k_in k_cap s0 (fx_script call Build_call) [] = Done (true, s', ex_emitted) /\ is_finished s' = true)
+  /\ exists info, decode dict_word transform_tbl true [] ex_emitted = Ok (ex_input, info).
+Proof. exact (fun d t => roundtrip_fast_path_example d t call k_op k_in k_cap Build_call (fun _ _ _ => eq_refl) (fun _ _ _ => eq_refl) (fun _ _ _ => eq_refl)). Qed.
